@@ -52,6 +52,7 @@ func checkC16(c *Ctx) {
 	c16Codes(c)
 	c16Echo(c, lists)
 	c16JoinE1(c)
+	c16WrongKind(c)
 }
 
 // c16KeyBlocks: R1 (getSKey/getJSKey block layouts and type bytes) is decided by the bit-level engine E1.
